@@ -985,6 +985,13 @@ def build_registry() -> dict:  # noqa: C901, PLR0912, PLR0915
         s.build(s.det_value(random.Random(0)))
         subject_of[s.cls] = s
 
+    for name in ("FxRuled", "FxTwin"):
+        s = Subject("fixture:" + name, fx[name], [Field("n", "int", "I"), Field("label", "bytes", "varlenH")],
+                    [["I", "n"], ["varlenH", "label"]])
+        s.ends_raw = False
+        REG[s.key] = s
+        subject_of[s.cls] = s
+
     # packers
     names = ser.get_available_formats()
     for name in names:
